@@ -12,6 +12,8 @@
 //       of the lines); each is loaded into a fresh instance
 //     -> n=<number of lines> then per group (';') per permutation ('!'):
 //          <ret>@<order in which the loader handed the messages out>@<dump | '=' when equal to the group's first>
+//   macro <k> <expected name hex> <expected metadata hex>
+//       -> name=<hex> meta=<hex> of the k-th port of the macro-made application (tree "static")
 //   rej <tree> <flat> <file hex> <appname> <abstract file>
 //       the given text loaded into a fresh instance
 //     -> ret=<n> B=<dump>
@@ -68,80 +70,96 @@ static std::string join(const std::vector<std::string> &v, const char *sep)
     return s.empty() ? "-" : s;
 }
 
+template<class R> static bool run_case(const std::vector<std::string> &f, std::ostringstream &out)
+{
+    if(f[0] == "save" || f[0] == "perm") {
+        std::unique_ptr<R> A(new R());
+        if(f[3] != "-")
+            for(auto &op : split(f[3], ';')) send_op(*A, op);
+        std::set<std::string> written;
+        std::string text = save_to_file(R::ports, A.get(), APP, APPVER, written, {});
+        std::string hdr, body;
+        split_header(text, hdr, body);
+        if(f[0] == "save") {
+            std::unique_ptr<R> B(new R());
+            ExactBuf tb(std::vector<uint8_t>(text.c_str(), text.c_str() + text.size() + 1));
+            int ret = load_from_file((const char*)tb.p, R::ports, B.get(), APP, APPVER, nullptr);
+            std::unique_ptr<R> C(new R());
+            std::set<std::string> w2;
+            std::string t2 = save_to_file(R::ports, C.get(), APP, APPVER, w2, {});
+            std::string h2, b2;
+            split_header(t2, h2, b2);
+            out << "hdr=" << (header_ok(hdr) ? 1 : 0) << " lines=" << scan_lines(body.c_str())
+                << " ret=" << ret << " A=" << dump_root(*A) << " B=" << dump_root(*B)
+                << " fresh=" << (header_ok(h2) ? "" : "BADHDR") << scan_lines(b2.c_str());
+        } else {
+            if(f.size() < 5) return false;
+            auto ls = body_lines(body);
+            std::sort(ls.begin(), ls.end());
+            out << "n=" << ls.size() << " ";
+            bool firstg = true;
+            for(auto &g : split(f[4], ';')) {
+                if(!firstg) out << ";";
+                firstg = false;
+                std::string first_dump;
+                bool firstp = true;
+                for(auto &pm : split(g, '/')) {
+                    std::string t = hdr;
+                    bool bad = false;
+                    if(pm != "-")
+                        for(auto &ix : split(pm, '.')) {
+                            size_t k = (size_t)atoi(ix.c_str());
+                            if(k >= ls.size()) { bad = true; break; }
+                            t += ls[k] + "\n";
+                        }
+                    if(!firstp) out << "!";
+                    if(bad) { out << "BADINDEX"; firstp = false; continue; }
+                    std::unique_ptr<R> B(new R());
+                    OrderLog lg;
+                    ExactBuf tb(std::vector<uint8_t>(t.c_str(), t.c_str() + t.size() + 1));
+                    int ret = load_from_file((const char*)tb.p, R::ports, B.get(), APP, APPVER, &lg);
+                    std::string d = dump_root(*B);
+                    out << ret << "@" << join(lg.order, ">") << "@";
+                    if(firstp) { first_dump = d; out << d; }
+                    else out << (d == first_dump ? std::string("=") : d);
+                    firstp = false;
+                }
+            }
+        }
+        return true;
+    }
+    if(f[0] == "rej") {
+        if(f.size() < 5) return false;
+        auto fb = unhex(f[3]);
+        fb.push_back(0);
+        ExactBuf tb(fb);
+        std::unique_ptr<R> B(new R());
+        int ret = load_from_file((const char*)tb.p, R::ports, B.get(), f[4].c_str(), APPVER, nullptr);
+        out << "ret=" << ret << " B=" << dump_root(*B);
+        return true;
+    }
+    return false;
+}
+
 int main()
 {
     std::string line;
     while(std::getline(std::cin, line)) {
         auto f = split(line, ' ');
         if(f.size() < 4) { puts("BADCASE"); continue; }
-        std::string err;
-        if(!build_app(f[1], err)) { printf("BADCASE %s\n", err.c_str()); continue; }
         std::ostringstream out;
-        if(f[0] == "save" || f[0] == "perm") {
-            std::unique_ptr<Root> A(new Root());
-            if(f[3] != "-")
-                for(auto &op : split(f[3], ';')) send_op(*A, op);
-            std::set<std::string> written;
-            std::string text = save_to_file(Root::ports, A.get(), APP, APPVER, written, {});
-            std::string hdr, body;
-            split_header(text, hdr, body);
-            if(f[0] == "save") {
-                std::unique_ptr<Root> B(new Root());
-                ExactBuf tb(std::vector<uint8_t>(text.c_str(), text.c_str() + text.size() + 1));
-                int ret = load_from_file((const char*)tb.p, Root::ports, B.get(), APP, APPVER, nullptr);
-                std::unique_ptr<Root> C(new Root());
-                std::set<std::string> w2;
-                std::string t2 = save_to_file(Root::ports, C.get(), APP, APPVER, w2, {});
-                std::string h2, b2;
-                split_header(t2, h2, b2);
-                out << "hdr=" << (header_ok(hdr) ? 1 : 0) << " lines=" << scan_lines(body.c_str())
-                    << " ret=" << ret << " A=" << dump_root(*A) << " B=" << dump_root(*B)
-                    << " fresh=" << (header_ok(h2) ? "" : "BADHDR") << scan_lines(b2.c_str());
-            } else {
-                if(f.size() < 5) { puts("BADCASE"); continue; }
-                auto ls = body_lines(body);
-                std::sort(ls.begin(), ls.end());
-                out << "n=" << ls.size() << " ";
-                bool firstg = true;
-                for(auto &g : split(f[4], ';')) {
-                    if(!firstg) out << ";";
-                    firstg = false;
-                    std::string first_dump;
-                    bool firstp = true;
-                    for(auto &pm : split(g, '/')) {
-                        std::string t = hdr;
-                        bool bad = false;
-                        if(pm != "-")
-                            for(auto &ix : split(pm, '.')) {
-                                size_t k = (size_t)atoi(ix.c_str());
-                                if(k >= ls.size()) { bad = true; break; }
-                                t += ls[k] + "\n";
-                            }
-                        if(!firstp) out << "!";
-                        if(bad) { out << "BADINDEX"; firstp = false; continue; }
-                        std::unique_ptr<Root> B(new Root());
-                        OrderLog lg;
-                        ExactBuf tb(std::vector<uint8_t>(t.c_str(), t.c_str() + t.size() + 1));
-                        int ret = load_from_file((const char*)tb.p, Root::ports, B.get(), APP, APPVER, &lg);
-                        std::string d = dump_root(*B);
-                        out << ret << "@" << join(lg.order, ">") << "@";
-                        if(firstp) { first_dump = d; out << d; }
-                        else out << (d == first_dump ? std::string("=") : d);
-                        firstp = false;
-                    }
-                }
-            }
+        bool ok;
+        if(f[0] == "macro") {                       // macro <k> <expected name hex> <expected metadata hex>
+            out << macro_port((size_t)atoi(f[1].c_str()));
+            ok = true;
         }
-        else if(f[0] == "rej") {
-            if(f.size() < 5) { puts("BADCASE"); continue; }
-            auto fb = unhex(f[3]);
-            fb.push_back(0);
-            ExactBuf tb(fb);
-            std::unique_ptr<Root> B(new Root());
-            int ret = load_from_file((const char*)tb.p, Root::ports, B.get(), f[4].c_str(), APPVER, nullptr);
-            out << "ret=" << ret << " B=" << dump_root(*B);
+        else if(f[1] == "static") ok = run_case<MObj>(f, out);
+        else {
+            std::string err;
+            if(!build_app(f[1], err)) { printf("BADCASE %s\n", err.c_str()); continue; }
+            ok = run_case<Root>(f, out);
         }
-        else { puts("BADCASE"); continue; }
+        if(!ok) { puts("BADCASE"); continue; }
         puts(out.str().c_str());
         fflush(stdout);
     }
